@@ -13,7 +13,8 @@ type walker struct {
 	u     *Unit
 	held  map[string]Held // base|lock -> held lock
 	onces map[string]bool
-	fresh map[string]bool // local identifiers that denote an object still under construction in this unit
+	fresh map[string]bool   // local identifiers that denote an object still under construction in this unit
+	svars map[string]string // local identifiers bound to a value with hidden mutable state -> why
 	litN  *int
 	top   string
 	loops []map[string]Held // held sets at the entry of the enclosing loops / switches / selects
@@ -101,8 +102,9 @@ func (pi *pkgInfo) funcDecl(fd *ast.FuncDecl) {
 	u.File, u.Line, u.EndLine = pos.Filename, pos.Line, pi.fset.Position(fd.End()).Line
 	out.Units = append(out.Units, u)
 	n := 0
-	w := &walker{pi: pi, u: u, held: map[string]Held{}, onces: map[string]bool{}, fresh: map[string]bool{}, litN: &n, top: name}
+	w := &walker{pi: pi, u: u, held: map[string]Held{}, onces: map[string]bool{}, fresh: map[string]bool{}, svars: map[string]string{}, litN: &n, top: name}
 	w.stmts(fd.Body.List)
+	w.returnsStateful(name, fd.Body)
 }
 
 // lit analyses a function literal as a unit of its own.  kind: go | value | defer (new context: no lock held) or
@@ -114,12 +116,14 @@ func (w *walker) lit(fl *ast.FuncLit, kind string) string {
 	pos := w.pi.fset.Position(fl.Pos())
 	u.File, u.Line, u.EndLine = pos.Filename, pos.Line, w.pi.fset.Position(fl.End()).Line
 	out.Units = append(out.Units, u)
-	nw := &walker{pi: w.pi, u: u, held: map[string]Held{}, onces: copySet(w.onces), fresh: map[string]bool{}, litN: w.litN, top: w.top}
+	nw := &walker{pi: w.pi, u: u, held: map[string]Held{}, onces: copySet(w.onces), fresh: map[string]bool{}, svars: map[string]string{}, litN: w.litN, top: w.top}
 	if kind == "sync" || len(kind) > 5 && kind[:5] == "once:" {
 		u.Inherit = w.heldList()
 		nw.held = copyHeld(w.held)
 	}
 	nw.stmts(fl.Body.List)
+	u.Stateful = w.captured(fl)
+	w.pi.lits[fl] = u
 	return u.Name
 }
 
